@@ -228,6 +228,15 @@ impl C06 {
         let mut files = Vec::new();
         let mut rules = Vec::new();
         let mut data = Vec::new();
+        // several files may share one base name in different directories (a per-team layout)
+        let same_base_rules = wl.progs.len() > 1 && r.chance(1, 4);
+        let same_base_data = wl.docs.len() > 1 && r.chance(1, 4);
+        if same_base_rules {
+            rep.count("gen.same_base_name_rules", 1);
+        }
+        if same_base_data {
+            rep.count("gen.same_base_name_data", 1);
+        }
         for (i, p) in wl.progs.iter().enumerate() {
             let mut p = p.clone();
             if r.chance(1, 5) {
@@ -263,7 +272,7 @@ impl C06 {
                 }
                 _ => {}
             }
-            let rel = rules_rel(i);
+            let rel = if same_base_rules { format!("rules/team-{}/checks.guard", i) } else { rules_rel(i) };
             files.push(FileSpec { rel: rel.clone(), bytes, mtime_ns: 0 });
             rules.push(rel);
         }
@@ -286,7 +295,7 @@ impl C06 {
                 }
                 _ => {}
             }
-            let rel = doc_rel(i, *f);
+            let rel = if same_base_data { format!("data/env-{}/template.{}", i, f.ext()) } else { doc_rel(i, *f) };
             files.push(FileSpec { rel: rel.clone(), bytes, mtime_ns: 0 });
             data.push(rel);
         }
